@@ -99,6 +99,7 @@ def gen_cfg(prop, tier, seed, i):
         cfg['big_args'] = [min(x, 20000) for x in cfg['big_args']]
     cfg['msg_cap'] = 150000
     cfg['epipe'] = 0.25          # chance that a send() towards an end that is gone fails on the spot (EPIPE)
+    cfg['kwcalls'] = 0.2         # share of the generated calls whose trailing arguments are passed by keyword
     if prop in ('C01', 'C02', 'C03', 'C04'):
         # read-only nodes attached to some clusters: they forward commands, receive the log, and must never count
         cfg['n_ro'] = pick(random.Random(h32('ro', prop, seed, i)), [0, 0, 0, 1, 2])
